@@ -78,6 +78,8 @@ let () =
       let r = request_of req drv in
       bump ("method_" ^ string_of_chars r.meth);
       (* hypothesis of the step-level theorems (C01_copy_is_walk): listings in OS order *)
+      (* hypothesis of the wire-level theorems of C04: the decoded tags are the codec model's *)
+      if not (wire_decoded r) then raise (Failure "the tag decoded by ConditionalMatch.ETag differs from the codec model (wire_decoded)");
       if not (sorted_otree sb) then raise (Failure "the sandbox listing is not in the order the model assumes (sorted_tree)");
       (match response_of obs with
        | None -> bump "obs_panic"; Some "agree=0 spec=0 kf=- :: implementation panicked"
